@@ -24,6 +24,7 @@ import (
 	"time"
 
 	"com.tuntun.rangers/node/src/common"
+	"com.tuntun.rangers/node/src/core"
 	middleware_pb "com.tuntun.rangers/node/src/middleware/pb"
 	"com.tuntun.rangers/node/src/middleware/types"
 	"com.tuntun.rangers/node/src/network"
@@ -676,6 +677,29 @@ func doMM(o *hx.Out, m *types.Member) []byte {
 	return out
 }
 
+func tokPairs(hs []common.Hashes) string {
+	if len(hs) == 0 {
+		return "e"
+	}
+	ps := make([]string, 0, len(hs))
+	for _, p := range hs {
+		ps = append(ps, hx.Hex(p[0].Bytes())+"."+hx.Hex(p[1].Bytes()))
+	}
+	return strings.Join(ps, ",")
+}
+
+func ansRU(b []byte) string {
+	hs, cur, height, pv, err := core.VerifC09UnMarshalTransactionRequestMessage(b)
+	if err != nil {
+		return errClass(err)
+	}
+	p := "n"
+	if pv != nil {
+		p = pv.String()
+	}
+	return "ok " + tokPairs(hs) + " " + hx.Hex(cur.Bytes()) + " " + strconv.FormatUint(height, 10) + " " + p
+}
+
 func ansEU(b []byte) string {
 	m, err := network.VerifC09UnMarshalMessage(b)
 	if err != nil {
@@ -694,6 +718,8 @@ func ansFU(b []byte) string {
 
 func parseOp(kind string, b []byte) string {
 	switch kind {
+	case "ru":
+		return ansRU(b)
 	case "eu":
 		return ansEU(b)
 	case "fu":
@@ -803,6 +829,7 @@ var nested = map[string]map[uint64]string{
 	"g": {1: "q"},
 	"G": {1: "g"},
 	"e": {},
+	"r": {1: "x"},
 }
 
 var timeFields = map[string]map[uint64]bool{"h": {4: true, 7: true}, "q": {5: true}}
@@ -1515,6 +1542,58 @@ func corr(a map[string]string) {
 		for _, v := range lenFamily("e", valid[0], 0, func(n int) []byte { return eg.r.Bytes(n) }) {
 			doParse(out, "eu", v)
 		}
+		// transaction request (core/msg_sender.go -> core/msg_handler.go)
+		var rvalid [][]byte
+		for i := 0; i < 60*scale; i++ {
+			var hs []common.Hashes
+			for n := eg.r.Pick(0, 1, 2, 5); n > 0; n-- {
+				hs = append(hs, common.Hashes{eg.hash(), eg.hash()})
+			}
+			cur, height := eg.hash(), eg.u64()
+			var pv *big.Int
+			switch eg.r.Intn(6) {
+			case 0:
+				pv = new(big.Int)
+			case 1:
+				pv = nil
+			case 2:
+				b := eg.r.Bytes(32)
+				b[0] = 0
+				pv = new(big.Int).SetBytes(b)
+			default:
+				pv = new(big.Int).SetBytes(eg.r.Bytes(1 + eg.r.Intn(40)))
+			}
+			pt := "n"
+			if pv != nil {
+				pt = pv.String()
+			}
+			var rb []byte
+			out.Do("rm "+tokPairs(hs)+" "+hx.Hex(cur.Bytes())+" "+strconv.FormatUint(height, 10)+" "+pt, func() string {
+				b, err := core.VerifC09MarshalTransactionRequestMessage(hs, cur, height, pv)
+				if err != nil {
+					return errClass(err)
+				}
+				rb = b
+				return hx.Hex(b)
+			})
+			if rb != nil {
+				doParse(out, "ru", rb)
+				rvalid = append(rvalid, rb)
+			}
+		}
+		doParse(out, "ru", nil)
+		for x := 0; x < 256; x++ {
+			doParse(out, "ru", []byte{byte(x)})
+		}
+		for _, m := range dropEach("r", richest(rvalid), 0) {
+			doParse(out, "ru", m)
+		}
+		for _, v := range lenFamily("r", richest(rvalid), 0, func(n int) []byte { return eg.r.Bytes(n) }) {
+			doParse(out, "ru", v)
+		}
+		for i := 0; i < 300*scale; i++ {
+			doParse(out, "ru", eg.mutate("r", rvalid[eg.r.Intn(len(rvalid))], 0))
+		}
 		methods := [][]byte{{0x80, 0, 0, 1}, {0x80, 0, 0, 2}, {0x80, 0, 0, 3}, {0x80, 0, 0, 6}, {0x10, 0, 0, 0}, {}, {1}, {1, 2, 3, 4, 5, 6}, nil}
 		for i := 0; i < 60*scale; i++ {
 			m := methods[eg.r.Intn(len(methods))]
@@ -1807,7 +1886,7 @@ func (s *searcher) checkParse(kind string, b []byte) {
 	s.evals++
 	res := hx.Guard(func() string { return parseOp(kind, b) })
 	s.dist[kind+":"+strings.SplitN(res, " ", 2)[0]] = true
-	name := map[string]string{"eu": "network.unMarshalMessage", "fu": "baseConn.unloadMsg", "mu": "UnMarshalMember", "Gu": "PbToGroups", "hu": "UnMarshalBlockHeader", "tu": "UnMarshalTransaction", "su": "UnMarshalTransactions",
+	name := map[string]string{"ru": "core.unMarshalTransactionRequestMessage", "eu": "network.unMarshalMessage", "fu": "baseConn.unloadMsg", "mu": "UnMarshalMember", "Gu": "PbToGroups", "hu": "UnMarshalBlockHeader", "tu": "UnMarshalTransaction", "su": "UnMarshalTransactions",
 		"bu": "UnMarshalBlock", "gu": "UnMarshalGroup"}[kind]
 	rp := map[string]string{"call": name, "bytes": hx.Hex(b), "observed": res}
 	switch {
@@ -1980,6 +2059,31 @@ func (s *searcher) run(g *gen, n int) {
 			s.add("group-roundtrip-"+strings.SplitN(res, " ", 2)[0], "producible group does not survive Marshal/UnMarshal: "+res,
 				map[string]string{"call": "MarshalGroup;UnMarshalGroup", "group": tokGroup(gr), "observed": res})
 		}
+		// --- transaction request round trip and hostile requests
+		{
+			hs := []common.Hashes{{g.hash(), g.hash()}, {g.hash(), g.hash()}}
+			cur, height, pv := g.hash(), g.u64(), new(big.Int).SetBytes(g.r.Bytes(g.r.Intn(33)))
+			s.evals++
+			res = hx.Guard(func() string {
+				b, err := core.VerifC09MarshalTransactionRequestMessage(hs, cur, height, pv)
+				if err != nil {
+					return "marshal-failed"
+				}
+				hs2, cur2, h2, pv2, err := core.VerifC09UnMarshalTransactionRequestMessage(b)
+				if err != nil {
+					return "reparse-failed"
+				}
+				if tokPairs(hs2) != tokPairs(hs) || cur2 != cur || h2 != height || pv2 == nil || pv2.Cmp(pv) != 0 {
+					return "content"
+				}
+				s.checkParse("ru", g.mutate("r", b, 0))
+				return "same"
+			})
+			if res != "same" {
+				s.add("txreq-roundtrip-"+res, "transaction request does not survive marshal/unMarshal: "+res,
+					map[string]string{"call": "marshalTransactionRequestMessage;unMarshalTransactionRequestMessage", "hashes": tokPairs(hs), "observed": res})
+			}
+		}
 		// --- envelope round trip and hostile envelopes
 		env := network.Message{Code: uint32(g.r.Pick(0, 1, 12, 255, 1<<32-1)), Body: g.optBytes()}
 		s.evals++
@@ -2125,7 +2229,7 @@ func search(a map[string]string) {
 		b, _ := hx.UnHex(w)
 		s.parsedHeaderRoundtrip(b)
 	}
-	for _, k := range []string{"eu", "fu", "tu", "hu", "su", "bu", "gu", "mu", "Gu"} {
+	for _, k := range []string{"ru", "eu", "fu", "tu", "hu", "su", "bu", "gu", "mu", "Gu"} {
 		for x := 0; x < 256; x++ {
 			s.checkParse(k, []byte{byte(x)})
 		}
@@ -2171,6 +2275,7 @@ func search(a map[string]string) {
 func main() {
 	utility.VerifDisableNTP()
 	network.VerifC09InitLoggers()
+	core.VerifC09InitLogger()
 	types.InitSerialzation() // package logger must be non-nil before a panic counts (node start-up does this)
 	a := hx.Args()
 	if a["mode"] == "search" {
